@@ -717,10 +717,18 @@ def run_midvel_standin(tier="quick", seed=0):
 
 # ------------------------------------------------------------------------------------------ reparameterize_spline: bounded stand-in
 def reparam_tu():
-    return ('#include <math.h>\n#include <stdlib.h>\n#include <cmath>\n#include <smooth/se2.hpp>\n#include <smooth/spline/dubins.hpp>\n#include <smooth/spline/reparameterize.hpp>\nusing namespace smooth;\n'
+    return ('#include <math.h>\n#include <stdlib.h>\n#include <cmath>\n#include <smooth/se2.hpp>\n#include <vector>\n#include <smooth/spline/bspline.hpp>\n#include <smooth/spline/dubins.hpp>\n#include <smooth/spline/reparameterize.hpp>\nusing namespace smooth;\n'
             '// out: [T, s(0), s(T), ds(0), then for i < n: s(i T / (n-1)), ds(i T / (n-1))]; info: [t_min, t_max] of the curve\n'
             'extern "C" void reparam(const double*tgt,double R,const double*vmax,const double*amax,double v0,double v1,int n,double*out,double*info){\n'
             '  const SE2d g = smooth::Map<const SE2d>(tgt); const auto c = dubins_curve<3>(g, R);\n'
+            '  const Eigen::Vector3d vM = Eigen::Map<const Eigen::Vector3d>(vmax), aM = Eigen::Map<const Eigen::Vector3d>(amax);\n'
+            '  const auto s = reparameterize_spline(c, (-vM).eval(), vM, (-aM).eval(), aM, v0, v1);\n'
+            '  info[0] = c.t_min(); info[1] = c.t_max(); const double T = s.t_max(); Eigen::Matrix<double, 1, 1> ds;\n'
+            '  out[0] = T; out[1] = s(0., ds); out[3] = ds(0); out[2] = s(T);\n'
+            '  for (int i = 0; i < n; ++i) { const double t = T * i / (n - 1); out[4 + 2 * i] = s(t, ds); out[5 + 2 * i] = ds(0); } }\n'
+            '// the same on a cubic SE2 BSpline with nc control points: a curve whose domain [t0, t0 + (nc - 3) dt] does not start at 0\n'
+            'extern "C" void reparam_bs(double t0,double dt,const double*ctrl,int nc,const double*vmax,const double*amax,double v0,double v1,int n,double*out,double*info){\n'
+            '  std::vector<SE2d> cp; for (int i = 0; i < nc; ++i) cp.push_back(smooth::Map<const SE2d>(ctrl + 4 * i)); const BSpline<3, SE2d> c(t0, dt, cp);\n'
             '  const Eigen::Vector3d vM = Eigen::Map<const Eigen::Vector3d>(vmax), aM = Eigen::Map<const Eigen::Vector3d>(amax);\n'
             '  const auto s = reparameterize_spline(c, (-vM).eval(), vM, (-aM).eval(), aM, v0, v1);\n'
             '  info[0] = c.t_min(); info[1] = c.t_max(); const double T = s.t_max(); Eigen::Matrix<double, 1, 1> ds;\n'
@@ -729,7 +737,7 @@ def reparam_tu():
 
 
 def run_reparam_standin(tier="quick", seed=0):
-    """[bounded] reparameterize_spline on Dubins curves: the returned map is non-decreasing, runs from t_min to t_max, and starts
+    """[bounded] reparameterize_spline on Dubins curves and on cubic SE2 BSplines with t_min != 0: the returned map is non-decreasing, runs from t_min to t_max, and starts
     with speed <= the requested start speed"""
     import ctypes
     from irsx import build
@@ -748,20 +756,33 @@ def run_reparam_standin(tier="quick", seed=0):
     f = lib.reparam
     f.restype = None
     cnt = 0
-    for _ in range(reps):
-        x, y, th, R = rng.gauss(0, 3), rng.gauss(0, 3), rng.uniform(-math.pi, math.pi), rng.choice([0.5, 1.0, 2.0])
+    fb = lib.reparam_bs
+    fb.restype = None
+    for rep in range(reps):
         vmax = [10 ** rng.uniform(-0.5, 1) for _ in range(3)]
         amax = [10 ** rng.uniform(-0.5, 1) for _ in range(3)]
         v0 = rng.choice([0.0, 0.3, 1.0])
         out, info = (ctypes.c_double * (4 + 2 * n))(), (ctypes.c_double * 2)()
-        f((ctypes.c_double * 4)(x, y, math.sin(th), math.cos(th)), ctypes.c_double(R), (ctypes.c_double * 3)(*vmax), (ctypes.c_double * 3)(*amax),
-          ctypes.c_double(v0), ctypes.c_double(math.inf), ctypes.c_int(n), out, info)
+        if rep % 4 == 3:
+            # a BSpline whose domain starts at t0 != 0 (control points advance smoothly)
+            t0, dt, nc = rng.choice([2.0, -1.5, 0.25, 10.0]), rng.choice([0.5, 1.0, 2.0]), rng.choice([5, 7, 9])
+            a, b, c_ = rng.uniform(0.05, 0.25), rng.uniform(0.3, 1.0), rng.uniform(-0.1, 0.1)
+            ctrl = []
+            for i in range(nc):
+                ctrl += [b * i, c_ * i * i, math.sin(a * i), math.cos(a * i)]
+            fb(ctypes.c_double(t0), ctypes.c_double(dt), (ctypes.c_double * len(ctrl))(*ctrl), ctypes.c_int(nc), (ctypes.c_double * 3)(*vmax),
+               (ctypes.c_double * 3)(*amax), ctypes.c_double(v0), ctypes.c_double(math.inf), ctypes.c_int(n), out, info)
+            env = dict(curve="BSpline<3,SE2d>", t0=t0, dt=dt, nc=nc, a=a, b=b, c=c_, vmax=vmax, amax=amax, v0=v0)
+        else:
+            x, y, th, R = rng.gauss(0, 3), rng.gauss(0, 3), rng.uniform(-math.pi, math.pi), rng.choice([0.5, 1.0, 2.0])
+            f((ctypes.c_double * 4)(x, y, math.sin(th), math.cos(th)), ctypes.c_double(R), (ctypes.c_double * 3)(*vmax), (ctypes.c_double * 3)(*amax),
+              ctypes.c_double(v0), ctypes.c_double(math.inf), ctypes.c_int(n), out, info)
+            env = dict(curve="dubins", x=x, y=y, th=th, R=R, vmax=vmax, amax=amax, v0=v0)
         o = list(out)
         if not all(math.isfinite(v) for v in o):
             continue
         cnt += 1
         tmin, tmax = info[0], info[1]
-        env = dict(x=x, y=y, th=th, R=R, vmax=vmax, amax=amax, v0=v0)
         svals = o[4::2]
         m = max([0.0] + [svals[i] - svals[i + 1] for i in range(n - 1)])
         for key, val in (("mono", m / max(1.0, tmax - tmin)), ("start", abs(o[1] - tmin)), ("end", abs(o[2] - tmax) / max(1.0, tmax - tmin)), ("v0", o[3] - v0)):
@@ -797,5 +818,5 @@ TRUSTED = ["A1 real-arithmetic reading (minimality, time span, t_max)", "A2 libm
            "C12 contracts of Spline::ConstantVelocity / operator+=; C13 contracts of BSpline::t_min / t_max"]
 ASSUMPTIONS = ["R > 0", "dt > 0, strictly increasing time stamps"]
 UNVERIFIED = ["fit_spline as a whole and fit_spline_1d (sparse linear solves are outside the executor's and CBMC's reach): only the interpolation step of fit_spline is under contract "
-              "(K = 3 on SE2, K = 5 on vectors; K = 5, 6 on SE2 / SO3 bounded), fit_spline_1d by a bounded stand-in", "reparameterize_spline (LP passes): bounded stand-in on Dubins curves only",
+              "(K = 3 on SE2, K = 5 on vectors; K = 5, 6 on SE2 / SO3 bounded), fit_spline_1d by a bounded stand-in", "reparameterize_spline (LP passes): bounded stand-in on Dubins curves and cubic SE2 BSplines (t_min != 0) only",
               "the geometry of dubins_csc / dubins_ccc (that each word reaches the target): bounded stand-in only", "fit_bspline beyond its time span (the optimisation result)"]
